@@ -195,6 +195,23 @@ def job(cfg):
         jr["outcomes"].append({"name": name + "/invariant-after", "kind": "goal", "status": "unsat" if inv_err is None else "sat", "s": 0.0, "expect": "unsat", "detail": inv_err or ""})
         if inv_err is not None:
             report(jr, cname, state, op, "stale-cache-after", inv_err)
+        # probe: whatever state the object is in now (including state the abstraction does not name, e.g. a memo kept
+        # next to the cache), the next forward and inverse passes agree with the uncached recomputation
+        if inv_err is None and err is None and not m.training:
+            try:
+                for direction in ("forward", "inverse"):
+                    out, lad = m(x) if direction == "forward" else m.inverse(x)
+                    was = m.using_cache
+                    m.using_cache = False
+                    ref, rlad = m(x) if direction == "forward" else m.inverse(x)
+                    m.using_cache = was
+                    perr = eq_arr(out, ref, asm) or lad_eq(lad, rlad, asm)
+                    jr["outcomes"].append({"name": name + "/probe-" + direction, "kind": "goal", "status": "unsat" if perr is None else "sat", "s": 0.0, "expect": "unsat", "detail": perr or ""})
+                    if perr is not None:
+                        report(jr, cname, state, op, "next-pass-differs-from-uncached", perr)
+                        break
+            except explore.NotModelled as e:
+                jr["inconclusive"].append({"query": name + "/probe", "notmodelled": str(e)})
         jr["samples"].append({"transition": name, "post_state": list(post)})
     solver.close()
     return jr
